@@ -118,5 +118,17 @@ func (r *fileImpl) Exec(h *vh.H, op string) string {
 	if strings.Contains(text, "\n//") || strings.Contains(text, " //") {
 		h.Count("file.with-comments")
 	}
-	return vh.Hex([]byte(text))
+	// the reader: protocompile on the printed text, summarised as a reader of the text sees it
+	second := "unread"
+	if re, err := compileText(fd.Path(), text, depsOf(fd)); err == nil {
+		if s2, err := summarize2(re); err == nil {
+			second = s2
+			h.Count("file.reread")
+		} else {
+			h.Count("file.reread-summary-error")
+		}
+	} else {
+		h.Count("file.reread-error")
+	}
+	return vh.Hex([]byte(text)) + " " + second
 }
